@@ -555,7 +555,11 @@ Definition react_shut (c : cfg) (n : nat) (p : list nat) (culprit : nat) (s : st
   | None => (s1, mo1)
   | Some r =>
       if sd_inline s n then
-        let '(s2, mo2) := finish_run c n (why_of s n) r culprit s1 in (s2, mo1 ++ mo2)
+        if rcanc (Rn s n) then
+          (* cannot happen in the program: a run cancelled inside its shutdown only tidies *)
+          let '(s2, mo2) := end_cancelled c n s1 in (s2, mo1 ++ OSdEnd n SRCancelled :: mo2)
+        else
+          let '(s2, mo2) := finish_run c n (why_of s n) r culprit s1 in (s2, mo1 ++ mo2)
       else (hdone n r s1, mo1 ++ [OSdEnd n r])
   end.
 
